@@ -120,6 +120,45 @@ def run(ids, tier, all_props):
                 f.write("| %s | %s | %s | %s | %s |\n" % (n, meta["property"], meta["needs"].replace("|", "\\|")[:160], k, v.replace("|", "\\|")))
     print("written seeded/RESULTS.md")
 
+def run_benign(ids):
+    """apply each benign/<id>/patch.diff (behaviour-preserving refactors written by sub-agents) to /repo,
+    run EVERY registered quick check, expect no alarm; write benign/RESULTS.md"""
+    if sh(f"git -C {REPO} status --porcelain").stdout.strip():
+        print("refusing: /repo has uncommitted changes"); sys.exit(2)
+    scratch = "/verif/work/benign-verif"
+    shutil.rmtree(scratch, ignore_errors=True)
+    os.makedirs(scratch)
+    shutil.copy(os.path.join(VERIF, "known_findings.txt"), scratch)
+    shutil.copytree(os.path.join(VERIF, "findings"), os.path.join(scratch, "findings"))
+    bd = os.path.join(VERIF, "benign")
+    names = sorted(n for n in os.listdir(bd) if os.path.isdir(os.path.join(bd, n)))
+    rows = []
+    for n in names:
+        if ids and n not in ids:
+            continue
+        a = sh(f"git -C {REPO} apply {bd}/{n}/patch.diff")
+        if a.returncode != 0:
+            rows.append((n, "-", "patch does not apply (later repairs touched the same lines)")); print(rows[-1]); continue
+        try:
+            t = sh(f"cd {REPO} && cargo test --offline --lib 2>&1 | grep -E '^test result'", env=dict(os.environ, CARGO_NET_OFFLINE="true"))
+            m = re.search(r"(\d+) passed; (\d+) failed", t.stdout)
+            rows.append((n, "xeh tests", f"{m.group(1)} passed, {m.group(2)} failed" if m else t.stdout[-100:]))
+            for prop in CLAIMED:
+                code, viol, detail, dt, tail = run_check(prop, "quick", scratch)
+                res = "quiet" if code == 0 else (f"ALARM ({detail[0] if detail else ''})" if code == 1 else f"exit {code}")
+                rows.append((n, prop, f"{res} ({dt:.0f}s)"))
+                print(rows[-1], flush=True)
+        finally:
+            sh(f"git -C {REPO} checkout -- .")
+    shutil.rmtree(scratch, ignore_errors=True)
+    with open(os.path.join(bd, "RESULTS.md"), "w") as f:
+        f.write("# Behaviour-preserving changes -> every registered quick check (tools_seeded.py benign; VERIF_SEED=1)\n\n")
+        f.write("Each patch is a refactoring written by a sub-agent told to preserve behaviour exactly (their differential\nchecks are described in the notes.md next to each patch). An alarm here would be a false alarm.\n\n")
+        f.write("| change | check | result |\n|---|---|---|\n")
+        for r in rows:
+            f.write("| %s | %s | %s |\n" % r)
+    print("written benign/RESULTS.md")
+
 def do_import(name, prop, needs, what):
     """copy a sub-agent's deliverables from /tmp/seed/out/<name> into seeded/<name>, confirm them, write meta.json"""
     src = f"/tmp/seed/out/{name}"
@@ -151,6 +190,8 @@ if __name__ == "__main__":
     if sys.argv[1] == "verify":
         for d in sys.argv[2:]:
             print(d, json.dumps(verify(d), indent=1))
+    elif sys.argv[1] == "benign":
+        run_benign(sys.argv[2:])
     elif sys.argv[1] == "import":
         do_import(sys.argv[2], sys.argv[3], sys.argv[4], sys.argv[5])
     elif sys.argv[1] == "run":
